@@ -56,6 +56,9 @@ def run_case(case):
     if case.get("int_sample"):      # integer-typed sample (whole decimetres): ties, int dtype
         S = np.round(S * 10).astype(np.int64)
         S = S[(S[:, 0] > 0) & (S[:, 1] > 0)]
+    if case.get("zero_inflated"):   # calm / not-measured entries: exact zeros in one variable (ties with axis points of the rays)
+        S = S.copy()
+        S[::3, {"x": 0, "y": 1}[case["zero_inflated"]]] = 0.0
     x, y = S.T
     viol, ncont, nontriv, exempt, refused = [], 0, 0, 0, 0
     rays = {"kept": 0, "dropped": 0}
@@ -168,7 +171,7 @@ def main(ctx):
                 "non-trivial = contours that did not emit the 'required precision' warning (those are exempt by the "
                 "property).")
     ctx.assumptions = ["the 'required precision' UserWarning exempts the whole contour (it cannot be attributed to a ray)",
-                       "exceedance recomputed with strict > on the supplied sample"]
+                       "exceedance recomputed with strict > on the supplied sample (also for zero-inflated samples, where a third of one variable is exactly 0 and ties with the axis points of the 0 degree ray)"]
     q = ctx.quick
     ns = (200, 1000, 10000) if q else (200, 1000, 10000, 50000)
     alphas = [1e-3, 0.01, 0.05, 0.2]
@@ -186,5 +189,10 @@ def main(ctx):
     for kind in ("and", "or"):
         cases.append({"model": "w_ln", "n": 5000, "sample_seed": 9, "kinds": [kind], "alphas": [0.05, 0.2], "steps": [7, 15],
                       "aes": [0.05, 0.2], "lohis": lohis[:2], "run_seed": ctx.seed, "int_sample": True})
+    for kind in ("and", "or"):
+        for zi in ("x", "y"):
+            for n in (600, 20000):
+                cases.append({"model": "w_ln", "n": n, "sample_seed": 11, "kinds": [kind], "alphas": [0.01, 0.05, 0.2], "steps": [5, 15, 30],
+                              "aes": [0.05, 0.2], "lohis": [lohis[3], lohis[0]], "run_seed": ctx.seed, "zero_inflated": zi})
     cases.sort(key=lambda c: -c["n"])
     ctx.pmap(cases, label="andor")
